@@ -41,8 +41,8 @@ impl Property for C36 {
 
     fn runs(&self, tier: Tier) -> u64 {
         match tier {
-            Tier::Quick => 48,
-            Tier::Thorough => 48 * 60,
+            Tier::Quick => 48 * 2,
+            Tier::Thorough => 48 * 200,
         }
     }
 
